@@ -77,7 +77,7 @@ def _handmade(draw):
 
 def strategy(ctx):
     rng = ctx.rng("c12-pool")
-    size = 2 if ctx.tier == "quick" else 16
+    size = 2 if ctx.tier == "quick" else 6
     pool_fixed = [ssmcase.draw_structure(rng, strategies=("fixedinterval",), nmax=6, steps=(2, 11), calibs=("none", "mle", "dynamic")) for _ in range(size)]
     pool_fp = []
     for _ in range(size):
